@@ -11808,10 +11808,10 @@ let enc_into m k c t0 =
 let sbe_source_packets e =
   source_packets e.sbe_id e.sbe_syms
 
-(** val sbe_repair_packets :
+(** val sbe_repair_packets_pinned :
     mode -> sb_encoder -> n -> n -> ((n * n) * n list) list outcome **)
 
-let sbe_repair_packets m e start n0 =
+let sbe_repair_packets_pinned m e start n0 =
   let k = lenN e.sbe_syms in
   obind (extended_source_block_symbols k) (fun kp ->
     obind (add_w m (Npos (XO (XO (XO (XO (XO XH)))))) start kp)
@@ -11831,6 +11831,14 @@ let sbe_repair_packets m e start n0 =
                         (fun esi ->
                         obind (payload_id_new e.sbe_id esi) (fun id -> Ok
                           (id, data)))))))) (rangeN (N.to_nat n0)))))))
+
+(** val sbe_repair_packets :
+    mode -> sb_encoder -> n -> n -> ((n * n) * n list) list outcome **)
+
+let sbe_repair_packets m e start n0 =
+  obind
+    (assert_ok (N.leb (N.add (N.add (lenN e.sbe_syms) start) n0) eSI_LIMIT))
+    (fun _ -> sbe_repair_packets_pinned m e start n0)
 
 (** val encoder_new_full :
     mode -> cfg -> n list -> sb_encoder list outcome **)
